@@ -234,6 +234,21 @@ PROPS = {
         ],
         "gen": [],
     },
+    "C19": {
+        "level_text": "Lean 4 non-interference theorems over an executable model of layered provider configuration (global, custom, project layers deep-merged; inline keys and environment references; the three fallback environment variables; custom headers; per-request overrides), its resolution, the diagnostics summary, what a run records about its provider, and what is attached to the outgoing request: for EVERY layer stack, environment and override, renaming all secret values by ANY blank-preserving function leaves diagnostics and recordings unchanged (two-run form included), while the wire carries exactly the renamed secrets; diagnostics report presence exactly when a key goes on the wire; a resolved key is never blank; the blank-preservation hypothesis is shown necessary. Obligation re-proved by decide on a table REGENERATED from the current source on every run: the only functions outside test modules that read a secret-bearing field (.api_key, .headers) are the resolver, the doctor handler, the override plumbing and the function that sends the request. Tied further by correspondence and a canary search on every run: random layer stacks (4 layers, JSON/JSONC), environments and overrides with planted unique canary secrets; GET /config/doctor and the headers a scripted provider actually received must equal the model's doctor / wire; then every file the authority wrote (log, snapshots, artifacts incl. request dumps, caches, checkpoints), every HTTP/SSE response and the process's own stdout/stderr (cases run in a child process) are searched for the canaries, across success, failing tool, HTTP error echoing the request body, dropped connection and junk events, with request dumping on and off.",
+        "level_note": "Lean kernel; strings are numbers in the model and URL substring tests are flags; JSONC parsing and JSON deep merge are modelled at the level of providers/fields/headers (validated by the correspondence run); a provider that echoes request HEADERS back in an error body, or a tool command that prints the process environment, would put a secret into frames — both are outside the property's quantifier and outside the model; rip-cli's own output is not covered (the authority is exercised in-process through its router).",
+        "technique": "Lean 4 proof (non-interference by renaming; layered-merge commutation) + decide over regenerated secret-reader table + differential correspondence of diagnostics and wire headers + canary search over all outputs",
+        "design_ref": "§5 C19",
+        "trusted_base": COMMON_TB + [
+            "translator ripx (syn): readers of .api_key/.headers outside test modules in config.rs, server.rs, session.rs, provider_openresponses.rs, runner.rs, openresponses_observability.rs",
+            "harness: scripted loopback provider recording request headers; process environment set per case (single-threaded between cases); child process for stdout/stderr capture",
+        ],
+        "assumptions": [
+            "secrets are the api key values and custom header values (not endpoint URLs, env variable names or header names, which diagnostics legitimately show)",
+            "the provider does not echo request headers; tools do not print the process environment",
+        ],
+        "gen": ["SecretReaders"],
+    },
     "C20": {
         "level_text": "Lean 4 theorems over an executable model of FrameStore and the TuiState::update fold: frame/output/preview bounds for every frame sequence and capacity, truncation cut on a char boundary, lookup-by-seq sound for every store state and complete on consecutive stores; the model is tied to the code by a differential correspondence run (same frame sequences through rip-tui and the compiled model) plus implementation oracles.",
         "level_note": "Lean kernel; axioms propext/Quot.sound only; model written by hand and validated by the correspondence check; BTreeMap/VecDeque/String modelled as lists; artifact-id extraction, job/context summaries and rendering not modelled.",
